@@ -22,6 +22,7 @@ func init() {
 			"C02-R2 facts-before(every mutation in UponDecided) ∋ ok(ValidateDecided); who-may-call(UponDecided)",
 			"C02-R3 Ens(UponCommit|decided) ⊇ {quorum for (round, root), aggregate of counted msgs}; aggregateCommitMsgs uses SignedMessage.Aggregate",
 			"C02-R4 who-may-call(QBFTStore.Save*) and who-may-call(Controller.SaveInstance)",
+			"C02-R5 production qbft.Config literals: ProposerF = RoundRobinProposer(state, round), SignatureVerification = true",
 		},
 		Trusted: []string{"herumi BLS FastAggregateVerify", "ssv-spec SignedMessage.Validate / Aggregate semantics (their guard facts are imported by summary, their loops are not re-proved)", "go/types + go/ssa"},
 		Assume:  []string{"config.VerifySignatures() true in production (C01-R6)"},
@@ -31,6 +32,10 @@ func init() {
 
 func runC02(c *core.Ctx) {
 	ctrl := ctrlPkg + ".(*Controller)."
+	// "proposed by the legitimate leader of its round": the leader function every production
+	// config is wired with is the protocol's round-robin proposer for the QUERIED round, and
+	// signature verification is on (shared with C01-R6)
+	checkConfigLiteralsRule(c, "C02-R5")
 	// ---------------- R1
 	ensures(c, "C02-R1", ctrlPkg+".IsDecidedMsg", "ret=true", []Req{
 		{"quorum-signers", "T(ssv-spec/types.Share.HasQuorum(p0, len(p1.Signers)))", "a decided message needs ≥ quorum signers"},
